@@ -908,7 +908,7 @@ class Run:
             self.violations.append({"what": "%s on %s (event %d, deviation %s)" % (b["clause"], b["t"], b["id"], b["dev"]), "replay": rp})
 
     def write_replay(self, obj):
-        d = os.path.join(VERIF, "replays")
+        d = os.environ.get("VERIF_REPLAY_DIR") or os.path.join(VERIF, "replays")
         os.makedirs(d, exist_ok=True)
         obj["property"] = self.prop
         obj["seed"] = self.seed
@@ -928,10 +928,13 @@ class Run:
               "known_findings": sorted(self.known)}
         if not self.cov["samples"]:
             self.cov["samples"] = [{"note": "no sample captured"}]
-        os.makedirs(os.path.join(VERIF, "evidence"), exist_ok=True)
-        tmp = os.path.join(VERIF, "evidence", ".%s.json.%d" % (self.prop, os.getpid()))
+        # tools that judge a seeded/benign scratch tree (VERIF_REPO=<worktree>) redirect the evidence: the files
+        # under /verif/evidence must only ever describe runs against /repo itself
+        evdir = os.environ.get("VERIF_EVIDENCE_DIR") or os.path.join(VERIF, "evidence")
+        os.makedirs(evdir, exist_ok=True)
+        tmp = os.path.join(evdir, ".%s.json.%d" % (self.prop, os.getpid()))
         json.dump(ev, open(tmp, "w"), indent=1)
-        os.replace(tmp, os.path.join(VERIF, "evidence", "%s.json" % self.prop))
+        os.replace(tmp, os.path.join(evdir, "%s.json" % self.prop))
         for k in sorted(self.known):
             log("KNOWN-FINDING: %s (%d occurrences)" % (k, self.known[k]))
         for v in self.violations:
